@@ -1,0 +1,41 @@
+//go:build verif
+// +build verif
+
+package spg
+
+// Verification hooks. Compiled only with the build tag "verif"; see
+// verif_off.go for the no-op versions used in every ordinary build.
+
+import (
+	"math/big"
+	"sort"
+)
+
+// VerifOnDraw, when set, is told the bound of every bounded draw just before
+// the draw reads from the random source.
+var VerifOnDraw func(n uint32)
+
+func verifOnDraw(n uint32) {
+	if VerifOnDraw != nil {
+		VerifOnDraw(n)
+	}
+}
+
+// verifCanon sorts, in place, the alphabet list the generator has built, so
+// that a draw index selects the same character on every call. It does not
+// rebuild the list: duplicates or missing entries stay as they are.
+func verifCanon(chars charList) {
+	sort.Strings(chars)
+}
+
+// VerifRandomUint32n exposes the bounded draw.
+func VerifRandomUint32n(n uint32) uint32 {
+	return randomUint32n(n)
+}
+
+// VerifCount exposes the exact integer whose logarithm a character recipe with
+// required sets reports as its entropy.
+func VerifCount(r CharRecipe) *big.Int {
+	r.buildCharacterList()
+	return r.n()
+}
